@@ -99,21 +99,21 @@ class SimTransport(asyncio.Transport):
             return
         sim = core._SIM
         data = bytes(data)
-        i = 0
         n_total = len(data)
-        while i < n_total:
-            n = n_total - i
-            if n > 1 and sim.chance(NetCfg.frag):
-                k = sim.choose(4)
-                if k == 0:
-                    n = 1 + sim.choose(min(n, 64))
-                elif k == 1:
-                    n = 1 + sim.choose(min(n, 9))
+        cuts = set()
+        if n_total > 1 and sim.chance(NetCfg.frag):
+            # up to 6 cut points: some inside the first bytes (the header line), the others anywhere
+            for _ in range(1 + sim.choose(6)):
+                if sim.chance(0.5):
+                    cuts.add(1 + sim.choose(min(n_total - 1, 40)))
                 else:
-                    n = 1 + sim.choose(n)
-                sim.count('net_fragment')
-            self._q.append(data[i:i + n])
-            i += n
+                    cuts.add(1 + sim.choose(n_total - 1))
+            sim.count('net_fragmented_writes')
+        prev = 0
+        for c in sorted(cuts):
+            self._q.append(data[prev:c])
+            prev = c
+        self._q.append(data[prev:])
         self._inflight += n_total
         if self._inflight > HI and not self._paused:
             self._paused = True
@@ -122,48 +122,51 @@ class SimTransport(asyncio.Transport):
         self._pump()
 
     def _pump(self):
+        """Called on the sender side after data (or a close) was queued: make sure the receiver-side delivery chain runs."""
         if self._pumping or (not self._q and not (self._closing and not self._closed_sent)):
             return
         self._pumping = True
+        try:
+            self.peer._loop.call_soon_threadsafe(self._deliver_next)
+        except RuntimeError:
+            self._pumping = False  # receiver's loop is closed: nobody to deliver to
+
+    def _deliver_next(self):
+        # runs on the RECEIVER's loop; the chain keeps itself going there, so data written before the sender's
+        # loop went away is still delivered (as the kernel would)
         sim = core._SIM
         delay = NetCfg.delays[sim.choose(len(NetCfg.delays))]
+        if delay:
+            self.peer._loop.call_later(delay, self._deliver)
+        else:
+            self.peer._loop.call_soon(self._deliver)
+
+    def _deliver(self):
         peer = self.peer
-
-        def deliver():
-            if self._q:
-                c = self._q.pop(0)
-                if not peer._closing:
-                    peer._protocol.data_received(c)
+        if self._q:
+            c = self._q.pop(0)
+            if not peer._closing:
+                peer._protocol.data_received(c)
+            try:
                 self._loop.call_soon_threadsafe(self._acked, len(c))
-            elif self._closing and not self._closed_sent:
-                self._closed_sent = True
-                self._loop.call_soon_threadsafe(self._unpump)
-                if not peer._closing:
-                    keep = peer._protocol.eof_received()
-                    if not keep:
-                        peer.close()
-
-        def sched():
-            if delay:
-                peer._loop.call_later(delay, deliver)
-            else:
-                deliver()
-
-        try:
-            peer._loop.call_soon_threadsafe(sched)
-        except RuntimeError:
-            self._pumping = False  # peer loop closed
-
-    def _unpump(self):
-        self._pumping = False
+            except RuntimeError:
+                self._inflight -= len(c)  # sender's loop is closed
+        elif self._closing and not self._closed_sent:
+            self._closed_sent = True
+            if not peer._closing:
+                keep = peer._protocol.eof_received()
+                if not keep:
+                    peer.close()
+        if self._q or (self._closing and not self._closed_sent):
+            self._deliver_next()
+        else:
+            self._pumping = False
 
     def _acked(self, n):
         self._inflight -= n
-        self._pumping = False
         if self._paused and self._inflight <= LO:
             self._paused = False
             self._protocol.resume_writing()
-        self._pump()
 
     def close(self):
         if self._closing:
@@ -224,6 +227,10 @@ async def start_unix_server(cb, path=None, **kw):
     loop = asyncio.get_running_loop()
     s = SimServer(loop, cb, path)
     LISTENERS[path] = s
+    try:
+        open(path, 'w').close()  # so that the library's os.unlink(path) at shutdown has something to remove
+    except OSError:
+        pass
     return s
 
 
@@ -256,6 +263,26 @@ async def open_unix_connection(path=None, **kw):
 
 def install():
     asyncio.set_event_loop_policy(SimPolicy())
+    # Pure-Python Future/Task with creation-counter hashes: sets of tasks (all_tasks, gather, wait) then iterate in a
+    # deterministic order instead of address order (addresses depend on when finished OS threads release their stacks).
+    import itertools
+    import asyncio.futures as F
+    import asyncio.tasks as T
+    ctr = itertools.count(1)
+    _finit = F._PyFuture.__init__
+
+    def __init__(self, *a, **k):
+        self._sim_hash = next(ctr)
+        _finit(self, *a, **k)
+
+    F._PyFuture.__init__ = __init__
+    F._PyFuture.__hash__ = lambda self: getattr(self, '_sim_hash', 0)
+    F._PyFuture.__eq__ = lambda self, other: self is other
+    T._PyTask.__hash__ = F._PyFuture.__hash__
+    F.Future = F._PyFuture
+    T.Task = T._PyTask
+    asyncio.Future = F._PyFuture
+    asyncio.Task = T._PyTask
 
 
 def install_net():
